@@ -227,9 +227,10 @@ MANIFEST = {
             "vertex of the arrangement, the midpoint of its elementary sub-segment has the same two locations (C02X locate_const) — EI transposed, EE = 2 "
             "(relateSpec_line_line_exterior_cells): with II all nine cells of the specification for two segments are characterised by point-set "
             "conditions (cell_complete for Line x Line). "
-            "Open there: GeometryCollections (rows proved for one-kind collections, whole matrix on the graph path for linear ones; DimsSpec of a "
-            "collection, the Exterior row of areal / point collections and 'an envelope implies an edge' missing; collections mixing kinds only occur "
-            "with empty members). The disjoint-envelope shortcut on the whole validity domain, polygons with holes "
+            "Collections of linear members or of point members, nested ones included: the whole matrix on the graph path "
+            "(relateImpl_point_collection_graph_eq_spec_partial; a linear collection with a bounding rectangle has an edge). "
+            "Open there: GeometryCollections on the shortcut path and areal collections (DimsSpec of a collection: pairwise disjoint members, boundary "
+            "dimension as a maximum over members); collections mixing kinds only occur with empty members. The disjoint-envelope shortcut on the whole validity domain, polygons with holes "
             "included: 'hole coordinates in the reported rectangle' and 'rings closed' follow from validity (C02X dom_facts), so relateImpl = relateSpec "
             "for domain operands with non-intersecting rectangles wherever HasDimensions agrees with the specification "
             "(relateImpl_disjoint_eq_spec_dom_partial; remaining hypothesis DimsSpec: interior face sample of a valid polygon, collections). "
